@@ -2969,9 +2969,9 @@ def run(ctx):
     check_sessions(ctx, corpus_sessions() + gen_sessions(rng, 20 if quick else 150, 8 if quick else 60))
     # the source of the executable: the author's specification / the validated live configuration (last: the random
     # stream of the parts above is the one earlier versions of this check used)
-    check_pairs(ctx, corpus_exe_cases() + gen_exe_pairs(rng, 5 if quick else 80))
+    check_pairs(ctx, corpus_exe_cases() + gen_exe_pairs(rng, 5 if quick else 40))
     histories = corpus_exe_histories()
-    for _ in range(8 if quick else 100):
+    for _ in range(8 if quick else 50):
         h = gen_history(rng, exe=True, chain=rng.random() < 0.3)
         if h is not None:
             histories.append(h)
